@@ -406,8 +406,8 @@ def _pubkeys(run, F, PV):
                       message=f"`{norm(s.targets[0])}` is assigned {sorted(got_)[:1]}: not the device's key for the path "
                               "of the same name")
     js = [n for n in A.own_nodes(fn) if isinstance(n, ast.Assign) and norm(n.targets[0]).startswith("json_dict[")]
-    run.check("R4", len(js) == 1 and norm(js[0].targets[0]) == "json_dict[str(path)]"
-              and norm(js[0].value) == "pk.to_string('uncompressed').hex()", "JSON maps str(path) to the uncompressed key",
+    run.check("R4", len(js) >= 1 and all(norm(j.targets[0]) == "json_dict[str(path)]"
+              and norm(j.value) == "pk.to_string('uncompressed').hex()" for j in js), "JSON maps str(path) to the uncompressed key",
               key="do_get_pubkeys|json-entry", where=fn.loc(), message="the JSON output entry is not `str(path): uncompressed key`")
     for j in js:
         for jn in g.nodes_of(j):
